@@ -5,6 +5,7 @@ import (
 	"os"
 	"path/filepath"
 	"sort"
+	"strconv"
 	"strings"
 
 	"github.com/MichaelMure/git-bug/cache"
@@ -91,6 +92,21 @@ func (e *Engine) Generate(prop, tier string, seed uint64, run int) *sim.Plan {
 				for c := range h.Nodes {
 					if m.Applies(h, c, 0) {
 						addCase("bug", m.Name, c, 0)
+						// a deviation that must be refused stays one whatever harmless oddity another
+						// commit of the same history carries: a third of these cases get a companion
+						if m.Verdict == "reject" && len(h.Nodes) > 1 {
+							// (deviations of the root, which alone carries the creation data, with every companion)
+							for _, cm := range companions {
+								if c != 0 && r.Intn(3*len(companions)) != 0 {
+									continue
+								}
+								c2 := r.Intn(len(h.Nodes))
+								if k := findMutation(cm); k != nil && c2 != c && k.Applies(h, c2, 0) {
+									addCase("bug", m.Name, c, 0)
+									p.Steps[len(p.Steps)-1].L = []string{cm, strconv.Itoa(c2)}
+								}
+							}
+						}
 						if m.Name == "byte-flip" {
 							for k := 0; k < 3; k++ {
 								addCase("bug", m.Name, c, 0)
@@ -413,7 +429,7 @@ func (e *Engine) Execute(p *sim.Plan, keepLog bool) (res *sim.RunResult) {
 		}
 		if note != "skipped" {
 			res.StepsOK++
-			keys[fmt.Sprintf("%s/%s/%d/%d/%s/%s", st.Op, st.K, st.N, st.B, st.S, st.T)] = true
+			keys[fmt.Sprintf("%s/%s/%d/%d/%s/%s/%v", st.Op, st.K, st.N, st.B, st.S, st.T, st.L)] = true
 		}
 		hashParts = append(hashParts, fmt.Sprintf("%d:%s:%s:%d", st.Id, st.K, note, len(vs)))
 		for _, v := range vs {
@@ -445,6 +461,10 @@ func (e *Engine) Execute(p *sim.Plan, keepLog bool) (res *sim.RunResult) {
 	}
 	return res
 }
+
+// companions are deviations the statement does not name (or controls), each confined to the tree
+// or the clock of one commit: added to another commit they must not turn a refusal into an acceptance.
+var companions = []string{"create-clock-on-non-root", "extra-unknown-entry", "edit-clock-duplicated", "version-entry-duplicated-conflicting", "clock-jump-1000-control"}
 
 func findMutation(name string) *mutation {
 	for i := range catalogue {
@@ -511,12 +531,26 @@ func (e *Engine) bugCase(p *sim.Plan, st *sim.Step, res *sim.RunResult, keep boo
 	valid.withAuthors(cw.authors)
 	bugId := valid.bugId()
 	prop := p.Property
+	with := ""
 	var vs []sim.Violation
 	add := func(kind, format string, a ...interface{}) {
-		vs = append(vs, sim.Violation{Property: prop, Kind: kind, Detail: fmt.Sprintf("mutation %s at commit %d op %d, victim situation %s via %s API: ", st.K, st.N, st.B, st.S, st.T) + fmt.Sprintf(format, a...)})
+		vs = append(vs, sim.Violation{Property: prop, Kind: kind, Detail: fmt.Sprintf("mutation %s at commit %d op %d%s, victim situation %s via %s API: ", st.K, st.N, st.B, with, st.S, st.T) + fmt.Sprintf(format, a...)})
 	}
 
 	hostile := valid.clone()
+	if len(st.L) == 2 {
+		// the companion first: the deviation proper is then made relative to what it left
+		k := findMutation(st.L[0])
+		c2, _ := strconv.Atoi(st.L[1])
+		if k == nil || k.Apply == nil || c2 >= len(hostile.Nodes) || c2 == st.N || m.Verdict != "reject" || !k.Applies(hostile, c2, 0) {
+			return nil, "skipped"
+		}
+		k.Apply(hostile, c2, 0)
+		if !m.Applies(hostile, st.N, st.B) {
+			return nil, "skipped"
+		}
+		with = fmt.Sprintf(" together with %s at commit %d", st.L[0], c2)
+	}
 	if m.Apply != nil {
 		m.Apply(hostile, st.N, st.B)
 	} else { // byte flip
